@@ -283,6 +283,9 @@ func (g *Gen) place(x *CExpr, env *Env) (*Ptr, error) {
 		if err != nil {
 			return nil, err
 		}
+		if gt, ok := bv.Ty.(ghostType); ok && gt.ty != nil {
+			bv.Ty = gt.ty // a ghost field declared with a Go pointer type (e.g. *bytes.Buffer) can be dereferenced
+		}
 		if bv.Ty == nil {
 			return nil, fmt.Errorf("cannot select %s on untyped value", x.Name)
 		}
@@ -696,6 +699,7 @@ func (g *Gen) evalSel(x *CExpr, env *Env) (Val, error) {
 		if p, err := g.place(x, env); err == nil {
 			lv := g.loadPtr(env.st, p)
 			g.arrayLenFact(lv)
+			g.preexisting(lv) // a reference read from the entry heap denotes an object older than anything allocated since
 			return lv, nil
 		}
 	}
